@@ -249,6 +249,9 @@ func main() {
 		extractAll(p, f)
 		var sb strings.Builder
 		sb.WriteString("-- GENERATED by /verif/extract from /repo's working tree on every run. Do not edit.\nnamespace Gen\n")
+		// one definition per line, none refers to another: a fixed order keeps the file byte-identical from run
+		// to run (no Lean rebuild, no relinking of the driver while another check is using it)
+		sort.Strings(f.lines)
 		for _, l := range f.lines {
 			sb.WriteString(l + "\n")
 		}
